@@ -443,7 +443,9 @@ class Structure(list):
         def setlat(a):
             return (setattr(a, "lattice", self.lattice), a)[-1]
 
-        super(Structure, self).extend(setlat(a) for a in newatoms)
+        # build the new atoms first so that `atoms` may be this structure
+        newatoms = [setlat(a) for a in newatoms]
+        super(Structure, self).extend(newatoms)
         return
 
     def __getitem__(self, idx):
